@@ -363,6 +363,16 @@ impl Ctx {
             );
         }
         let replays_dir = self.verif_dir.join("replays");
+        if self.replay.is_none() {
+            // replay files of earlier runs of this property are stale now
+            if let Ok(entries) = std::fs::read_dir(&replays_dir) {
+                for e in entries.flatten() {
+                    if e.file_name().to_string_lossy().starts_with(&format!("{}-", self.id)) {
+                        let _ = std::fs::remove_file(e.path());
+                    }
+                }
+            }
+        }
         let mut exit = 0;
         let mut printed = HashSet::new();
         for (sub, signature, k, witness) in &inner.violations {
